@@ -177,6 +177,28 @@ def run_jobs(pid, jobs_chunks, build, tier, workdir, workers, timeout, deadline=
   return results, crashes, skipped
 
 
+def crash_where(log, rc, timed_out):
+  """Short, stable description of where a worker died: assertion text or the innermost mujoco_warp frame."""
+  import re
+
+  if timed_out:
+    return "timeout"
+  mm = re.findall(r"Assertion failed[^\n]*", log)
+  if mm:
+    return re.sub(r"0x[0-9a-f]+|\d{4,}", "#", mm[-1])[:160]
+  frames = re.findall(r'File "[^"]*/mujoco_warp/_src/([a-z_]+\.py)", line \d+ in (\w+)', log)
+  sig = {-11: "SIGSEGV", -6: "SIGABRT", -8: "SIGFPE", -7: "SIGBUS"}.get(rc, f"rc={rc}")
+  if frames:
+    return f"{sig} in {frames[0][0]}:{frames[0][1]}"
+  return sig
+
+
+def shrink_candidates(pid, sc, build, workdir):
+  """Ask a worker for the shrink candidates of a scenario (the property modules need warp/mujoco to build them)."""
+  res, _ = single(pid, sc, build, workdir, "shrinklist", extra={"list_shrinks": True})
+  return (res or {}).get("candidates", [])
+
+
 def load_known():
   p = os.path.join(HERE, "known_findings.json")
   if not os.path.exists(p):
@@ -227,8 +249,12 @@ def check(pid, tier, seed=None, replay=None, workers=None, budget_s=None):
     sc.pop("expect", None)
     res, crash = single(pid, sc, build, workdir, "replay")
     if crash or res is None:
-      print(f"[{pid}] replay: worker died: {crash}")
-      return 1 if getattr(mod, "CRASH_IS_VIOLATION", False) else 2
+      where = crash_where(crash["log"], crash["rc"], crash["timed_out"]) if crash else "?"
+      print(f"[{pid}] replay: worker died: {where}")
+      if getattr(mod, "CRASH_IS_VIOLATION", False):
+        print(f"VIOLATION property={pid} replay={replay}")
+        return 1
+      return 2
     if res["status"] == "violation":
       for v in res["violations"]:
         print(f"[{pid}] replay reproduces: {json.dumps(v['class'], sort_keys=True)} :: {v.get('detail')}")
@@ -297,13 +323,51 @@ def check(pid, tier, seed=None, replay=None, workers=None, budget_s=None):
     reported.append((path, vclass, v.get("detail"), len(lst)))
 
   if crash_is_violation:
+    seen_where = set()
     for c in crashes:
+      where = crash_where(c["log"], c["rc"], c["timed_out"])
       if c.get("job") is None:
+        print(f"[{pid}] worker died before its first run: harness error")
         harness_error = True
         continue
-      # regenerate the scenario of the crashed run and replay it alone
-      sres, _ = single(pid, None, build, workdir, f"crashgen{c['idx']}", extra={"gen_only": True, "jobs": [c["job"]]})
-      harness_error = True  # refined by C17's own module via mod.handle_crash if present
+      gres, _ = single(pid, None, build, workdir, f"crashgen{c['idx']}", extra={"gen_only": True, "jobs": [c["job"]]})
+      if gres is None or "scenario" not in gres:
+        print(f"[{pid}] could not regenerate the scenario of crashed run idx={c['idx']}: harness error")
+        harness_error = True
+        continue
+      sc = gres["scenario"]
+      res, crash2 = single(pid, sc, build, workdir, f"crashconf{c['idx']}", timeout=cfg.get("timeout_s", 600))
+      if crash2 is None:
+        print(f"[{pid}] crash of run idx={c['idx']} ({where}) did NOT reproduce alone (status={None if res is None else res['status']}) -> harness error")
+        json.dump(dict(sc, expect={"crash": where}), open(os.path.join(repdir, f"unconfirmed-crash-{c['idx']}.json"), "w"), indent=1, default=str)
+        harness_error = True
+        continue
+      where = crash_where(crash2["log"], crash2["rc"], crash2["timed_out"])
+      vclass = {"oracle": "process_survives", "kind": "timeout" if crash2["timed_out"] else "crash", "where": where}
+      k = match_known(known, pid, vclass)
+      if k is not None:
+        known_hits.setdefault(k["id"], [k, 0])[1] += 1
+        continue
+      if where in seen_where:
+        continue
+      seen_where.add(where)
+      final = sc
+      if hasattr(mod, "shrink") and cfg.get("minimise", True):
+        # a crash cannot be caught in-process: every shrink candidate runs in its own interpreter (bounded number of attempts)
+        tries, improved = 0, True
+        while improved and tries < cfg.get("crash_min_tries", 24):
+          improved = False
+          for cand in shrink_candidates(pid, final, build, workdir):
+            tries += 1
+            r2, c2 = single(pid, cand, build, workdir, f"crashmin{c['idx']}-{tries}", timeout=cfg.get("timeout_s", 600))
+            if c2 is not None and crash_where(c2["log"], c2["rc"], c2["timed_out"]) == where:
+              final, improved = cand, True
+              break
+            if tries >= cfg.get("crash_min_tries", 24):
+              break
+      path = os.path.join(repdir, f"crash-{seed}-{c['idx']}.json")
+      json.dump(dict(final, expect={"violation_class": vclass, "detail": crash2["log"][-1500:]}), open(path, "w"), indent=1, default=str)
+      reported.append((path, vclass, "worker process died: " + where, 1))
   for e in errors:
     print(f"[{pid}] run idx={e['idx']} raised: {e['error']}")
     print("    " + e.get("trace", "")[-1200:].replace("\n", "\n    "))
